@@ -120,7 +120,7 @@ def r18_3(ctx):
                     tgt = U(hdr[1])
                     evs = [e.node for e in bodies[0].events if e.kind == "call"]
                     good = (len(calls) == 2 and calls[0].endswith(f".parse({tgt}@iter)") and call_tail(evs[1]) == "append" and len(evs[1].args) == 1 and evs[1].args[0] is evs[0]
-                            and U(evs[1].func.value) in ("list()", "[]", "asts@loop", "asts"))
+                            and isinstance(evs[1].func.value, ast.Name) and evs[1].func.value.id.split("@")[0] == args[1])
         ctx.check("successful entry: one tree per behaviour part, appended in order", good, "for b in behaviors: asts.append(parser.parse(b))", "loop shape not recognised" if not good else "ok", fn_where(idx, fi))
     pi = idx.func("ParsedInsn.__init__")
     stores = {U(n.targets[0] if isinstance(n, ast.Assign) else n.target): U(n.value) for n in ast.walk(pi.node) if isinstance(n, (ast.Assign, ast.AnnAssign))}
